@@ -402,6 +402,14 @@ pub fn shape(name: &str) -> Logical {
             l.contents[k].tag = UNREADABLE_TAG;
             l
         }
+        // a raw content first (cluster 0), then one compressed content that cannot be read: the
+        // cluster that gets lost is the one with the highest index
+        "badhigh" => {
+            let mut l = shape("small");
+            l.name = name.into();
+            l.contents = vec![item(700, Entropy::High, Hint::No, 2), item(3000, Entropy::Low, Hint::Yes, UNREADABLE_TAG)];
+            l
+        }
         // a compressed cluster stored on more than 8 KiB (written in one call past the writer's
         // buffer) and one extra content pack in its own file
         "mid" => {
@@ -487,6 +495,26 @@ fn add_items<A: jbk::creator::ContentAdder + ?Sized>(adder: &mut A, items: &[Ite
             r?;
             continue;
         }
+        if it.src != Src::Memory {
+            // a whole file, or a window at a non-zero origin of a larger file
+            let p = std::path::Path::new(&crate::scratch_base()).join(format!("jbkmc-src-{}-{}-{}.bin", std::process::id(), it.len, it.tag));
+            let bytes = it.bytes();
+            let (origin, all) = if it.src == Src::FileRange {
+                let mut all = crate::gen::payload(37, Entropy::High, 77);
+                all.extend_from_slice(&bytes);
+                all.extend_from_slice(&crate::gen::payload(53, Entropy::High, 78));
+                (37u64, all)
+            } else {
+                (0u64, bytes.clone())
+            };
+            std::fs::write(&p, &all).map_err(|e| e.to_string())?;
+            let f = std::fs::File::open(&p).map_err(|e| e.to_string())?;
+            let src = if it.src == Src::FileRange { jbk::creator::InputFile::new_range(f, origin, Some(bytes.len() as u64)) } else { jbk::creator::InputFile::new(f) }.map_err(|e| format!("file source: {e}"))?;
+            let r = adder.add_content(Box::new(src), it.hint.to_jbk()).map_err(|e| format!("add_content: {e}"));
+            let _ = std::fs::remove_file(&p);
+            r?;
+            continue;
+        }
         adder
             .add_content(Box::new(std::io::Cursor::new(it.bytes())), it.hint.to_jbk())
             .map_err(|e| format!("add_content: {e}"))?;
@@ -554,6 +582,55 @@ pub fn create_logical_ext(l: &Logical, comp: Comp, packaging: Packaging, dir: &P
         Err(p) => Err(format!("panic {p}")),
     }
 }
+
+/// Low-level construction: bare content packs + bare directory + manifest file with locations.
+/// `order`: the order in which [directory, pack 1, .., pack n] are listed in the manifest.
+pub fn create_lowlevel(l: &Logical, comp: Comp, dir: &Path, order: &[usize]) -> Result<CreatedLogical, String> {
+    crate::catch(|| -> Result<CreatedLogical, String> {
+        let vendor = jbk::VendorId::from(VENDOR);
+        let mut files = vec![];
+        let mut infos = vec![];
+        let mut all: Vec<(u16, &Vec<Item>)> = vec![(1, &l.contents)];
+        for (k, e) in l.extra_packs.iter().enumerate() {
+            all.push(((k + 2) as u16, e));
+        }
+        for (id, items) in all {
+            let p = dir.join(format!("pack{id}.jbkc"));
+            let up = camino::Utf8PathBuf::from_path_buf(p.clone()).unwrap();
+            let mut c = jbk::creator::ContentPackCreator::new(&up, jbk::PackId::from(id), vendor, Default::default(), comp.to_jbk()).map_err(|e| e.to_string())?;
+            for it in items {
+                c.add_content(Box::new(std::io::Cursor::new(it.bytes())), it.hint.to_jbk()).map_err(|e| e.to_string())?;
+            }
+            let (_f, info) = c.finalize().map_err(|e| e.to_string())?;
+            infos.push((info, format!("pack{id}.jbkc")));
+            files.push(p);
+        }
+        let mut d = jbk::creator::DirectoryPackCreator::new(jbk::PackId::from(0), vendor, Default::default());
+        populate(&l.dir, None, &mut d);
+        let dp = dir.join("dir.jbkd");
+        let mut df = std::fs::OpenOptions::new().read(true).write(true).create(true).truncate(true).open(&dp).map_err(|e| e.to_string())?;
+        let dinfo = d.finalize().map_err(|e| e.to_string())?.write(&mut df).map_err(|e| e.to_string())?;
+        let mut m = jbk::creator::ManifestPackCreator::new(vendor, Default::default());
+        let mut listed: Vec<Option<(jbk::creator::PackData, String)>> = vec![Some((dinfo, "dir.jbkd".to_string()))];
+        listed.extend(infos.into_iter().map(Some));
+        let identity: Vec<usize> = (0..listed.len()).collect();
+        let order: &[usize] = if order.is_empty() { &identity } else { order };
+        assert_eq!(order.len(), listed.len());
+        for &k in order {
+            let (info, loc) = listed[k].take().expect("each pack once");
+            m.add_pack(info, loc);
+        }
+        let mp = dir.join("main.jbkm");
+        let mut mf = std::fs::OpenOptions::new().read(true).write(true).create(true).truncate(true).open(&mp).map_err(|e| e.to_string())?;
+        m.finalize(&mut mf).map_err(|e| e.to_string())?;
+        let mut all_files = vec![mp.clone()];
+        all_files.extend(files);
+        all_files.push(dp);
+        Ok(CreatedLogical { path: mp, files: all_files })
+    })
+    .unwrap_or_else(|p| Err(format!("panic {p}")))
+}
+
 
 /// The model's dump of a logical container: what `dump_container` must return for it.
 pub fn opts_for(l: &Logical) -> DumpOpts {
